@@ -46,16 +46,18 @@ def run(ctx):
     rep.rule('R5.3', 'stable merge: dispatch on reverse; max/min + index(); heap items compare keys only')
     rep.rule('R5.4', 'rows are delivered as tuple copies')
     rep.rule('R5.5', 'mergesort: per-table sort and merge use the same key and reverse')
+    rep.rule('R5.12', 'mergesort: every input of the merge is standardised to the output fields (padded / cut like cat) on every path')
     rep.assumptions = ['list.sort is stable (also with reverse=True); heapq.merge is stable in iterable order; '
                        'min()/max() return the first extremum; list.index() returns the first match']
     rep.trusted = ['stdlib contracts above', 'decision-table extractor']
     sv = ctx.project.need_class('petl.transform.sorts:SortView')
     nc = ctx.project.need_fn('petl.transform.sorts:SortView._iternocache')
-    r51(ctx, rep, nc)
-    r52(ctx, rep, sv, nc)
-    r53(ctx, rep)
-    r54(ctx, rep, sv)
-    r55(ctx, rep)
+    ctx.attempt(r51, ctx, rep, nc)
+    ctx.attempt(r52, ctx, rep, sv, nc)
+    ctx.attempt(r53, ctx, rep)
+    ctx.attempt(r54, ctx, rep, sv)
+    ctx.attempt(r55, ctx, rep)
+    ctx.attempt(r512, ctx, rep)
     # a look-ahead row must not be tested by truthiness (shared with C12 R12.7, restricted to sorts.py)
     from .c12 import r127
     rep.rule('R5.7', 'no row of the source is tested for truth in sorts.py (an empty row is falsy)')
@@ -196,6 +198,33 @@ def r51(ctx, rep, nc):
         raise AnalysisError('anchor vanished: run reads (islice) in SortView._iternocache')
     else:
         rep.violated('R5.1', nc, 'run bound', 'runs are read with different bounds %s' % sorted(bounds), reads[0])
+    # the exhaustion test is about the bound the runs were read with
+    if len(bounds) == 1:
+        bound = list(bounds)[0][1]
+        single = {}
+        for n in own_nodes(nc.node):
+            if isinstance(n, ast.Assign) and len(n.targets) == 1 and isinstance(n.targets[0], ast.Name):
+                single.setdefault(n.targets[0].id, []).append(norm(n.value))
+        alias = {k: v[0] for k, v in single.items() if len(v) == 1}
+        canon = lambda t: alias.get(t, t)
+        tested = []
+        for x in ast.walk(split.test):
+            if isinstance(x, ast.Compare) and len(x.ops) == 1:
+                l, r = x.left, x.comparators[0]
+                if 'len(' in norm(l) and 'len(' not in norm(r):
+                    tested.append(('exhaustion test', norm(r), x))
+                elif 'len(' in norm(r) and 'len(' not in norm(l):
+                    tested.append(('exhaustion test', norm(l), x))
+                elif isinstance(x.ops[0], (ast.Is, ast.IsNot)) and isinstance(r, ast.Constant) and r.value is None:
+                    tested.append(('unbounded test', norm(l), x))
+        for what, t, x in tested:
+            if canon(t) == canon(bound):
+                rep.held('R5.1', nc, '%s: %s' % (what, norm(x)), 'about the bound the runs are read with', x)
+            else:
+                rep.violated('R5.1', nc, '%s: %s' % (what, norm(x)),
+                             'the %s looks at `%s` but the runs are read with `%s`: when the two differ (the bound resolved '
+                             'from petl.config) a full first run is taken for the whole source and the rest of the rows is '
+                             'lost, or an exhausted source is spilled' % (what, t, bound), x)
     # the run loop continues while the last run was non-empty
     loops = [n for n in own_nodes(nc.node) if isinstance(n, ast.While)]
     if loops and norm(loops[0].test) == 'rows':
@@ -472,34 +501,108 @@ def r54(ctx, rep, sv):
 
 # ------------------------------------------------------------------------- R5.5
 def r55(ctx, rep):
+    from .sortapp import sort_application
+    from ..ladder import paths, resolve, test_defs
     init = ctx.project.need_fn('petl.transform.sorts:MergeSortView.__init__')
     it = ctx.project.need_fn('petl.transform.sorts:MergeSortView.__iter__')
-    sorts = _calls(init, 'sort')
-    if not sorts:
-        raise AnalysisError('anchor vanished: sort(...) in MergeSortView.__init__')
-    for c in sorts:
-        k = _kw(c, 'key')
-        r = _kw(c, 'reverse')
-        ok = k is not None and norm(k) == 'key' and r is not None and norm(r) == 'reverse'
-        if ok:
-            rep.held('R5.5', init, norm(c)[:60], 'each input sorted by key / reverse', c)
+    defs = test_defs(init.node)
+    n_paths = 0
+    for p in paths(init.node.body, {'presorted': False}, defs):
+        if p.kind == 'raise':
+            continue
+        stored = [s for s in p.effects if isinstance(s, ast.Assign) and len(s.targets) == 1 and
+                  norm(s.targets[0]) == 'self.tables']
+        if not stored:
+            rep.violated('R5.5', init, 'self.tables (presorted false)', 'the inputs are not stored', init.node)
+            continue
+        n_paths += 1
+        before = p.effects[:p.effects.index(stored[-1])]
+        val = resolve(stored[-1].value, before)
+        app = sort_application(ctx, init, val)
+        c = norm(stored[-1])[:60]
+        if app is None or app.over is None:
+            rep.violated('R5.5', init, c, 'when presorted is false every input must be sorted (by key / reverse); the inputs '
+                         'are stored as `%s`' % norm(val)[:80], stored[-1])
+        elif app.opaque:
+            rep.undecided('R5.5', init, c, 'arguments of the sort are spread from something the analysis cannot see', stored[-1])
+        elif app.text('key') == 'key' and app.text('reverse') == 'reverse' and norm(app.over) in ('tables', 'list(tables)'):
+            rep.held('R5.5', init, c, 'each input sorted by key / reverse', stored[-1])
         else:
-            rep.violated('R5.5', init, norm(c)[:60], 'each input must be sorted with key=key, reverse=reverse', c)
+            rep.violated('R5.5', init, c, 'each input must be sorted with key=key, reverse=reverse; found key=%s reverse=%s over %s'
+                         % (app.text('key'), app.text('reverse'), norm(app.over)), stored[-1])
+    if not n_paths:
+        raise AnalysisError('anchor vanished: no path of MergeSortView.__init__ for presorted false')
     stores = {norm(t): norm(n.value) for n in own_nodes(init.node) if isinstance(n, ast.Assign) for t in n.targets}
     call = [n for n in own_nodes(it.node) if isinstance(n, ast.Call) and norm(n.func) == 'itermergesort']
     if not call:
         raise AnalysisError('anchor vanished: itermergesort call in MergeSortView.__iter__')
-    a = [norm(x) for x in call[0].args]
-    ok = len(a) == 5 and a[1] == 'self.key' and a[4] == 'self.reverse' and stores.get('self.key') == 'key' and \
+    ims0 = ctx.project.need_fn('petl.transform.sorts:itermergesort')
+    bound = {}
+    for pname, a in zip(ims0.posparams, call[0].args):
+        bound[pname] = norm(a)
+    for k in call[0].keywords:
+        if k.arg is not None:
+            bound[k.arg] = norm(k.value)
+    ok = bound.get('key') == 'self.key' and bound.get('reverse') == 'self.reverse' and stores.get('self.key') == 'key' and \
         stores.get('self.reverse') == 'reverse'
     if ok:
         rep.held('R5.5', it, norm(call[0])[:60], 'merge uses the constructor\'s key and reverse', call[0])
     else:
         rep.violated('R5.5', it, norm(call[0])[:60], 'the merge must receive self.key (= key) and self.reverse (= reverse); '
-                     'found %s with %s' % (a, {k: v for k, v in stores.items() if k in ('self.key', 'self.reverse')}), call[0])
+                     'found %s with %s' % (bound, {k: v for k, v in stores.items() if k in ('self.key', 'self.reverse')}), call[0])
     ims = ctx.project.need_fn('petl.transform.sorts:itermergesort')
     m = _calls(ims, '_shortlistmergesorted')
     if m and [norm(x) for x in m[0].args[:2]] == ['getkey', 'reverse']:
         rep.held('R5.5', ims, norm(m[0])[:60], 'merges by the key built from `key` and the caller\'s reverse', m[0])
     else:
         rep.violated('R5.5', ims, '_shortlistmergesorted(getkey, reverse, ...)', 'found %s' % [norm(x)[:60] for x in m], ims.node)
+
+
+# ------------------------------------------------------------------------- R5.12
+def r512(ctx, rep):
+    """mergesort(t1, t2, ...) == sort(cat(t1, t2, ...)): cat pads short rows with `missing` and cuts long ones, so every
+    iterator handed to the merge must come out of the standardising generator -- no input may bypass it."""
+    ims = ctx.project.need_fn('petl.transform.sorts:itermergesort')
+    body = getattr(ims, 'orig_body', None) or ims.node.body
+    merges = [n for n in own_nodes(ims.node) if isinstance(n, ast.Call) and
+              any(isinstance(a, ast.Starred) for a in n.args) and not isinstance(n.func, ast.Attribute)]
+    merges = [m for m in merges if norm(m.func) not in ('zip', 'izip', 'chain', 'itertools.chain', 'izip_longest')]
+    if not merges:
+        rep.undecided('R5.12', ims, 'merge call', 'no call with the list of inputs (*inputs) found', ims.node)
+        return
+    m = merges[-1]
+    star = [a.value for a in m.args if isinstance(a, ast.Starred)][0]
+    defs = {}
+    for n in own_nodes(ims.node):
+        if isinstance(n, ast.Assign) and len(n.targets) == 1 and isinstance(n.targets[0], ast.Name):
+            defs.setdefault(n.targets[0].id, []).append(n.value)
+    e = star
+    hops = 0
+    while isinstance(e, ast.Name) and len(defs.get(e.id, [])) == 1 and hops < 4:
+        e = defs[e.id][0]
+        hops += 1
+    if isinstance(e, ast.Call) and norm(e.func) in ('list', 'tuple') and len(e.args) == 1:
+        e = e.args[0]
+    if not isinstance(e, (ast.ListComp, ast.GeneratorExp)):
+        rep.undecided('R5.12', ims, 'inputs of the merge: ' + norm(star)[:50], 'not a comprehension over the sources', m)
+        return
+    elt = e.elt
+    local_gens = {n.name for n in ast.walk(ims.node) if isinstance(n, ast.FunctionDef) and n is not ims.node and
+                  any(isinstance(x, (ast.Yield, ast.YieldFrom)) for x in ast.walk(n))}
+    mod = ims.module
+    def _is_std(call):
+        if not isinstance(call, ast.Call) or not isinstance(call.func, ast.Name):
+            return False
+        if call.func.id in local_gens:
+            return True
+        f = mod.functions.get(call.func.id)
+        return f is not None and any(isinstance(x, (ast.Yield, ast.YieldFrom)) for x in ast.walk(f.node))
+    if _is_std(elt):
+        rep.held('R5.12', ims, 'inputs of the merge: ' + norm(elt)[:60], 'every source goes through the standardising generator', elt)
+    elif isinstance(elt, ast.IfExp) or not isinstance(elt, ast.Call):
+        rep.violated('R5.12', ims, 'inputs of the merge: ' + norm(elt)[:80],
+                     'a source can reach the merge without going through the standardising generator: its short rows are '
+                     'not padded with `missing` and its long rows not cut, so mergesort(...) differs from sort(cat(...)) on '
+                     'ragged input', elt)
+    else:
+        rep.undecided('R5.12', ims, 'inputs of the merge: ' + norm(elt)[:60], 'callee is not a generator of this module', elt)
